@@ -35,6 +35,7 @@ import (
 	"os"
 	"runtime/debug"
 	"strings"
+	"sync/atomic"
 	"time"
 
 	"github.com/vektah/gqlparser/v2"
@@ -71,6 +72,7 @@ type inCase struct {
 	Seed  int64           `json:"seed"`
 	Own   bool            `json:"ownvars"` // every argument occurrence gets its own variable (reuse groups: the text must not depend on the values)
 	Plan  string          `json:"plan"`    // reuse lane: cases with the same plan id share ONE planned datasource (NewDataSource once, many Loads)
+	Dv    string          `json:"dv"`      // data variant for text cases (operations in spec form carry it themselves)
 	OpRaw json.RawMessage `json:"op"`
 	Op    *gqlshape.Op    `json:"-"`
 	Text  string          `json:"text"`
@@ -113,10 +115,66 @@ type server struct {
 	cleanup func()
 }
 
+// dataVariant selects the service data for the current case ("" = the stock grpctest.MockService).
+var dataVariant atomic.Value
+
+// variantService is grpctest.MockService with a few RPCs overridden when a data variant is selected: service data
+// the stock mock never returns (spec: GQLShapeData, universe "v1").
+//
+//	v1  QueryCategories: 3 categories named "Alpha", "" (the proto3 default value), "Gamma", kind BOOK, no subcategories
+//	    QueryBlogPost:   nested lists with NULL inner lists: relatedTopics [["a","b"],null,["c"]],
+//	                     suggestions [["s1"],null,["s2","s3"]], tagGroups [["x"],["y","z"]],
+//	                     contributorTeams [[{u1,"U 1"}],null]
+type variantService struct {
+	grpctest.MockService
+}
+
+func variant() string {
+	v, _ := dataVariant.Load().(string)
+	return v
+}
+
+func (s *variantService) QueryCategories(ctx context.Context, in *productv1.QueryCategoriesRequest) (*productv1.QueryCategoriesResponse, error) {
+	if variant() != "v1" {
+		return s.MockService.QueryCategories(ctx, in)
+	}
+	var cs []*productv1.Category
+	for i, name := range []string{"Alpha", "", "Gamma"} {
+		cs = append(cs, &productv1.Category{Id: fmt.Sprintf("category-%d", i+1), Name: name, Kind: productv1.CategoryKind_CATEGORY_KIND_BOOK})
+	}
+	return &productv1.QueryCategoriesResponse{Categories: cs}, nil
+}
+
+func strs(items ...string) *productv1.ListOfString {
+	return &productv1.ListOfString{List: &productv1.ListOfString_List{Items: items}}
+}
+
+func (s *variantService) QueryBlogPost(ctx context.Context, in *productv1.QueryBlogPostRequest) (*productv1.QueryBlogPostResponse, error) {
+	if variant() != "v1" {
+		return s.MockService.QueryBlogPost(ctx, in)
+	}
+	null := &productv1.ListOfString{} // wrapper without a list = a null inner list
+	return &productv1.QueryBlogPostResponse{BlogPost: &productv1.BlogPost{
+		Id:    "blog-v1",
+		Title: "Variant 1",
+		RelatedTopics: &productv1.ListOfListOfString{List: &productv1.ListOfListOfString_List{
+			Items: []*productv1.ListOfString{strs("a", "b"), null, strs("c")}}},
+		Suggestions: &productv1.ListOfListOfString{List: &productv1.ListOfListOfString_List{
+			Items: []*productv1.ListOfString{strs("s1"), null, strs("s2", "s3")}}},
+		TagGroups: &productv1.ListOfListOfString{List: &productv1.ListOfListOfString_List{
+			Items: []*productv1.ListOfString{strs("x"), strs("y", "z")}}},
+		ContributorTeams: &productv1.ListOfListOfUser{List: &productv1.ListOfListOfUser_List{
+			Items: []*productv1.ListOfUser{
+				{List: &productv1.ListOfUser_List{Items: []*productv1.User{{Id: "u1", Name: "U 1"}}}},
+				{},
+			}}},
+	}}, nil
+}
+
 func newServer() (*server, error) {
 	lis := bufconn.Listen(1024 * 1024)
 	srv := grpc.NewServer()
-	productv1.RegisterProductServiceServer(srv, &grpctest.MockService{})
+	productv1.RegisterProductServiceServer(srv, &variantService{})
 	go func() { _ = srv.Serve(lis) }()
 	conn, err := grpc.NewClient("passthrough:///bufnet",
 		grpc.WithTransportCredentials(insecure.NewCredentials()),
@@ -169,6 +227,11 @@ func runCase(c *inCase, srv *server, schema *ast.Document, compiler *grpcdatasou
 			}
 		}
 	}()
+	dv := c.Dv
+	if c.Op != nil && c.Op.Dv != "" {
+		dv = c.Op.Dv
+	}
+	dataVariant.Store(dv)
 	text, vars := c.Text, []byte(c.Vars)
 	var fed []fedCfg = c.Fed
 	if c.Op != nil {
